@@ -4,6 +4,7 @@ the report) and a stub `def <name>_refused : String := "<why>"` is emitted so
 that theorems about it stop compiling.
 """
 import ast, inspect, importlib, textwrap
+import calcfns
 
 TARGETS = [
     # (lean name, module, qualified attribute path, parameter kinds)
@@ -196,9 +197,25 @@ def translate(lean_name, func, kinds):
 def generate(repo):
     out = ['import PyElf.Core.Construct', 'set_option linter.unusedVariables false', 'namespace PyElf.Gen.Pure', 'open PyElf', '']
     rep = {'translated': [], 'refused': {}}
+    calc = None
     for lean_name, modname, path, kinds in TARGETS:
         try:
             obj = importlib.import_module(modname)
+            if lean_name in calcfns.REFS:
+                # a relocation formula: the function object is whatever the live recipe tables call, found by its
+                # behaviour on sample points (private helper names are free to change)
+                if calc is None:
+                    calc = calcfns.by_canonical_name(obj)
+                fns = calc.get(lean_name, [])
+                if not fns:
+                    raise Refuse('no recipe table uses a function computing this formula')
+                texts = {translate(lean_name, f, kinds) for f in fns}
+                if len(texts) != 1:
+                    raise Refuse('%d different functions fingerprint as this formula' % len(texts))
+                out.append('/-- %s: %s -/' % (modname, ', '.join(sorted(f.__name__ for f in fns))))
+                out.append(texts.pop())
+                rep['translated'].append(lean_name)
+                continue
             for part in path.split('.'):
                 obj = getattr(obj, part)
             out.append('/-- %s.%s -/' % (modname, path))
